@@ -137,11 +137,12 @@ impl Expression for Op {
                 });
             }
             Or => {
-                return self
-                    .lhs
-                    .resolve(ctx)?
-                    .try_or(|| self.rhs.resolve(ctx))
-                    .map_err(Into::into);
+                // the right operand is resolved here rather than inside `try_or`, which would
+                // wrap a `return` or `abort` reached there into a plain error
+                return match self.lhs.resolve(ctx)? {
+                    Null | Boolean(false) => self.rhs.resolve(ctx),
+                    value => Ok(value),
+                };
             }
             And => {
                 return match self.lhs.resolve(ctx)? {
